@@ -280,12 +280,14 @@ func largeFileReceive(wrt http.ResponseWriter, req *http.Request) {
 	}
 
 	buff := make([]byte, 512)
-	if _, err = file.Read(buff); err != nil {
+	n, err := file.Read(buff)
+	if err != nil {
 		writeHttpResponse(ErrUnknown(msgID, "", now), err)
 		return
 	}
 
-	mimeType := http.DetectContentType(buff)
+	// Sniff the uploaded bytes only, not the zero padding of the buffer.
+	mimeType := http.DetectContentType(buff[:n])
 	// If DetectContentType fails, see if client-provided content type can be used.
 	if mimeType == "application/octet-stream" {
 		if userContentType, params, err := mime.ParseMediaType(header.Header.Get("Content-Type")); err == nil {
